@@ -13,7 +13,7 @@ DEFAULT_WEIGHTS = {
     'wait': 10, 'setflag': 5, 'settracked': 5, 'lock': 4, 'put': 4, 'get': 3, 'iter': 2,
     'close': 1, 'borrow': 4, 'resource': 2, 'transfer': 3, 'scope': 6, 'until': 6,
     'spawn': 2, 'cancel': 3, 'await_task': 3, 'raise': 1, 'ticker': 2, 'collect': 2,
-    'first': 2, 'guard': 1, 'graceful': 1,
+    'first': 2, 'guard': 1, 'graceful': 1, 'watch': 1.5,
 }
 
 
@@ -78,6 +78,7 @@ class Gen:
         if depth == 0:
             weights['spawn'] = 0
             weights['guard'] = 0
+            weights['watch'] = 0
         ops = [op for op, weight in weights.items() if weight > 0]
         op = rng.choices(ops, [weights[o] for o in ops])[0]
         step = getattr(self, 'g_' + op)(depth)
@@ -261,6 +262,17 @@ class Gen:
     def g_guard(self, depth):
         return {'op': 'guard', 'body': self.steps(depth + 1, self.rng.randint(1, 3)),
                 'child': self.child(depth)}
+
+    def g_watch(self, depth):
+        """hand something that is not a coroutine to scope.do(): a running Task of another
+        block (a watcher) or a bare notification; always volatile, so it cannot block the exit"""
+        rng = self.rng
+        step = {'op': 'watch'}
+        if self.tasks and rng.random() < 0.7:
+            step.update(payload='task', task=rng.choice(self.tasks))
+        else:
+            step.update(payload='notif', n=self.notif())
+        return step
 
     def g_cancel(self, depth):
         rng = self.rng
